@@ -6,6 +6,7 @@
    errors carry the value present in the bytes.  The known finding F7 (MACsec
    short length / ARP address sizes name the field that produced required_len) is
    excluded explicitly and witnessed below. *)
+From EP Require Parse.ConstsOk.
 From EP Require Import Base.Bytes Parse.Types Parse.Slices Parse.Cursor Parse.View
   Parse.WireSpec Parse.StrictProofs.
 
